@@ -5,7 +5,8 @@ Expected HASH / TRANSCRIPT INPUT SEQUENCES of the three crates — reviewed agai
 prefix), the batch-verification transcript of `ed25519-dalek/src/batch.rs`'s documentation, and the hash-to-scalar / hash-to-group
 maps.  Each entry is `(position inside the function, key)` with `key` the numeric encoding of `(file, function, kind, text)`;
 `Props/C08/HashInputs.lean` proves that the inventory REGENERATED from the source (`Dalek.Gen.HashInventory`) is exactly this list:
-what is absorbed into each hash, and in which order, cannot change without breaking that theorem.  Mathlib-free.
+what is absorbed into each hash, in which order, and WHICH digest each generic helper is instantiated with, cannot change without
+breaking that theorem.  Mathlib-free.  (First written by tools/oneoff/gen_hashtable.py from the pinned tree, then reviewed.)
 -/
 namespace Dalek.Model.HashTable
 open Dalek.Model.PanicTable
@@ -38,11 +39,29 @@ def expected : List (Nat × Nat) := [
   (7, sitekey% "ed25519-dalek/src/batch.rs" "verify_batch" "append" "append_message(b\"sig.s\", sig.s_bytes())"),
   (8, sitekey% "ed25519-dalek/src/batch.rs" "verify_batch" "finalize" "build_rng()"),
   (9, sitekey% "ed25519-dalek/src/batch.rs" "verify_batch" "finalize" "finalize(&mut ZeroRng)"),
+  -- ed25519-dalek/src/hazmat.rs  raw_sign
+  --   digest type arguments: the generic helper is instantiated with the CALLER's context digest (hazmat) resp. with SHA-512 (every spec-compliant entry point)
+  (0, sitekey% "ed25519-dalek/src/hazmat.rs" "raw_sign" "digest_arg" "raw_sign::< CtxDigest >"),
+  -- ed25519-dalek/src/hazmat.rs  raw_sign_prehashed
+  --   digest type arguments: the generic helper is instantiated with the CALLER's context digest (hazmat) resp. with SHA-512 (every spec-compliant entry point)
+  (0, sitekey% "ed25519-dalek/src/hazmat.rs" "raw_sign_prehashed" "digest_arg" "raw_sign_prehashed::< CtxDigest, MsgDigest >"),
+  -- ed25519-dalek/src/hazmat.rs  raw_verify
+  --   digest type arguments: the generic helper is instantiated with the CALLER's context digest (hazmat) resp. with SHA-512 (every spec-compliant entry point)
+  (0, sitekey% "ed25519-dalek/src/hazmat.rs" "raw_verify" "digest_arg" "raw_verify::< CtxDigest >"),
+  -- ed25519-dalek/src/hazmat.rs  raw_verify_prehashed
+  --   digest type arguments: the generic helper is instantiated with the CALLER's context digest (hazmat) resp. with SHA-512 (every spec-compliant entry point)
+  (0, sitekey% "ed25519-dalek/src/hazmat.rs" "raw_verify_prehashed" "digest_arg" "raw_verify_prehashed::< CtxDigest, MsgDigest >"),
+  -- ed25519-dalek/src/signing.rs  SigningKey::sign_prehashed
+  --   digest type arguments: the generic helper is instantiated with the CALLER's context digest (hazmat) resp. with SHA-512 (every spec-compliant entry point)
+  (0, sitekey% "ed25519-dalek/src/signing.rs" "SigningKey::sign_prehashed" "digest_arg" "raw_sign_prehashed::< Sha512, MsgDigest >"),
   -- ed25519-dalek/src/signing.rs  SigningKey::to_scalar_bytes
   --   RFC 8032 5.1.5 step 1: h = SHA-512(seed)
   (0, sitekey% "ed25519-dalek/src/signing.rs" "SigningKey::to_scalar_bytes" "new" "Sha512::default()"),
   (1, sitekey% "ed25519-dalek/src/signing.rs" "SigningKey::to_scalar_bytes" "update" "chain_update(self.secret_key)"),
   (2, sitekey% "ed25519-dalek/src/signing.rs" "SigningKey::to_scalar_bytes" "finalize" "finalize()"),
+  -- ed25519-dalek/src/signing.rs  <SigningKey as Signer<Signature>>::try_sign
+  --   digest type arguments: the generic helper is instantiated with the CALLER's context digest (hazmat) resp. with SHA-512 (every spec-compliant entry point)
+  (0, sitekey% "ed25519-dalek/src/signing.rs" "<SigningKey as Signer<Signature>>::try_sign" "digest_arg" "raw_sign::< Sha512 >"),
   -- ed25519-dalek/src/signing.rs  <ExpandedSecretKey as From<SecretKey>>::from
   --   RFC 8032 5.1.5 step 1: h = SHA-512(seed); lower half -> clamped scalar, upper half -> prefix
   (0, sitekey% "ed25519-dalek/src/signing.rs" "<ExpandedSecretKey as From<SecretKey>>::from" "new" "Sha512::default()"),
@@ -90,7 +109,30 @@ def expected : List (Nat × Nat) := [
   (6, sitekey% "ed25519-dalek/src/verifying.rs" "VerifyingKey::compute_challenge" "update" "update(R.as_bytes())"),
   (7, sitekey% "ed25519-dalek/src/verifying.rs" "VerifyingKey::compute_challenge" "update" "update(A.as_bytes())"),
   (8, sitekey% "ed25519-dalek/src/verifying.rs" "VerifyingKey::compute_challenge" "update" "update(M)"),
-  (9, sitekey% "ed25519-dalek/src/verifying.rs" "VerifyingKey::compute_challenge" "from_hash" "from_hash(h)")
+  (9, sitekey% "ed25519-dalek/src/verifying.rs" "VerifyingKey::compute_challenge" "from_hash" "from_hash(h)"),
+  -- ed25519-dalek/src/verifying.rs  VerifyingKey::recompute_R
+  --   digest type arguments: the generic helper is instantiated with the CALLER's context digest (hazmat) resp. with SHA-512 (every spec-compliant entry point)
+  (0, sitekey% "ed25519-dalek/src/verifying.rs" "VerifyingKey::recompute_R" "digest_arg" "compute_challenge::< CtxDigest >"),
+  -- ed25519-dalek/src/verifying.rs  VerifyingKey::raw_verify
+  --   digest type arguments: the generic helper is instantiated with the CALLER's context digest (hazmat) resp. with SHA-512 (every spec-compliant entry point)
+  (0, sitekey% "ed25519-dalek/src/verifying.rs" "VerifyingKey::raw_verify" "digest_arg" "recompute_R::< CtxDigest >"),
+  -- ed25519-dalek/src/verifying.rs  VerifyingKey::raw_verify_prehashed
+  --   digest type arguments: the generic helper is instantiated with the CALLER's context digest (hazmat) resp. with SHA-512 (every spec-compliant entry point)
+  (0, sitekey% "ed25519-dalek/src/verifying.rs" "VerifyingKey::raw_verify_prehashed" "finalize" "finalize()"),
+  (1, sitekey% "ed25519-dalek/src/verifying.rs" "VerifyingKey::raw_verify_prehashed" "digest_arg" "recompute_R::< CtxDigest >"),
+  -- ed25519-dalek/src/verifying.rs  VerifyingKey::verify_prehashed
+  --   digest type arguments: the generic helper is instantiated with the CALLER's context digest (hazmat) resp. with SHA-512 (every spec-compliant entry point)
+  (0, sitekey% "ed25519-dalek/src/verifying.rs" "VerifyingKey::verify_prehashed" "digest_arg" "raw_verify_prehashed::< Sha512, MsgDigest >"),
+  -- ed25519-dalek/src/verifying.rs  VerifyingKey::verify_strict
+  --   digest type arguments: the generic helper is instantiated with the CALLER's context digest (hazmat) resp. with SHA-512 (every spec-compliant entry point)
+  (0, sitekey% "ed25519-dalek/src/verifying.rs" "VerifyingKey::verify_strict" "digest_arg" "recompute_R::< Sha512 >"),
+  -- ed25519-dalek/src/verifying.rs  VerifyingKey::verify_prehashed_strict
+  --   digest type arguments: the generic helper is instantiated with the CALLER's context digest (hazmat) resp. with SHA-512 (every spec-compliant entry point)
+  (0, sitekey% "ed25519-dalek/src/verifying.rs" "VerifyingKey::verify_prehashed_strict" "finalize" "finalize()"),
+  (1, sitekey% "ed25519-dalek/src/verifying.rs" "VerifyingKey::verify_prehashed_strict" "digest_arg" "recompute_R::< Sha512 >"),
+  -- ed25519-dalek/src/verifying.rs  <VerifyingKey as Verifier<Signature>>::verify
+  --   digest type arguments: the generic helper is instantiated with the CALLER's context digest (hazmat) resp. with SHA-512 (every spec-compliant entry point)
+  (0, sitekey% "ed25519-dalek/src/verifying.rs" "<VerifyingKey as Verifier<Signature>>::verify" "digest_arg" "raw_verify::< Sha512 >")
 ]
 
 end Dalek.Model.HashTable
